@@ -1,4 +1,6 @@
 SPECIFICATION Spec
 CONSTANTS
   Full = TRUE
+  DEV_SmallAngleLinearised = FALSE
+  DEV_EnvironmentNotMoved = FALSE
 INVARIANT Emit
